@@ -183,7 +183,7 @@ func providerEffectScan(c *Ctx) *types.Named {
 					case isProviderRooted(kind):
 						nProvider++
 						ok := c.P.withinOnly(fn, allowNames("(*SAMLServiceProvider).SigningContext")) && (path == ".signingContext" || strings.Contains(kind, ".signingContext)"))
-						if !ok && strings.HasPrefix(kind, "param:") && strings.Count(path, ".") == 1 && guardedFields[strings.TrimPrefix(path, ".")] && lockRoots[topFn(fn)] && c.P.withinOnly(fn, allowNames("(*SAMLServiceProvider).SigningContext")) {
+						if !ok && strings.HasPrefix(kind, "param:") && strings.Count(path, ".") == 1 && guardedFields[strings.TrimPrefix(path, ".")] && (lockRoots[topFn(fn)] || guardedCovered[topFn(fn)]) && c.P.withinOnly(fn, allowNames("(*SAMLServiceProvider).SigningContext")) {
 							// bookkeeping next to the cached context, written where the context is created: R2 demands the write lock
 							ok = true
 						}
@@ -362,7 +362,7 @@ func restOfC17(c *Ctx, spT *types.Named) {
 				if guardedF[name] || name == "signingContextMu" {
 					nAcc++
 					// every function that touches library-written provider state is a root of the lockset rule below
-					c.check(lockR[topFn(fn)], "C17-R2/who-may-access", shortFn(fn), "access to sp."+name, c.P.InstrPos(fa), "inside a function whose every path is checked by the lockset rule", "sp."+name+" is accessed outside the functions analysed for lock discipline")
+					c.check(lockR[topFn(fn)] || guardedCovered[topFn(fn)], "C17-R2/who-may-access", shortFn(fn), "access to sp."+name, c.P.InstrPos(fa), "inside a function whose every path is checked by the lockset rule", "sp."+name+" is accessed outside the functions analysed for lock discipline")
 				}
 			}
 		}
@@ -526,6 +526,9 @@ func lockLabel(t *Terminal) string {
 	a := t.atoms()
 	if a["!(SP.signingContext == nil)"] {
 		return "cached"
+	}
+	if len(t.Vals) == 0 {
+		return "path" // a lockset root without results (a setter-like helper)
 	}
 	return "creating:" + sourceOf(t.Vals[0])
 }
@@ -865,7 +868,11 @@ func derivedDeep(derived func(Val, int) bool, v Val, d int) bool {
 // signing context and whatever further cache / bookkeeping fields a refactoring adds — plus the mutex; and the
 // top-level functions that touch any of them. Those functions are the roots of the lockset rule (R2): every load of
 // such a field holds signingContextMu, every store holds it in write mode.
+// guardedCovered: functions touching guarded state that are not roots themselves but only run inside one.
+var guardedCovered = map[*ssa.Function]bool{}
+
 func guardedState(p *Prog, spT *types.Named) (fields map[string]bool, roots map[*ssa.Function]bool) {
+	guardedCovered = map[*ssa.Function]bool{}
 	fields = map[string]bool{"signingContext": true}
 	roots = map[*ssa.Function]bool{}
 	config := map[string]bool{"SetSPKeyStore": true, "SetSPSigningKeyStore": true}
@@ -904,6 +911,18 @@ func guardedState(p *Prog, spT *types.Named) (fields map[string]bool, roots map[
 					}
 				}
 			}
+		}
+	}
+	// a helper that is only ever called from other such functions (an "…Locked" helper invoked with the mutex held) is
+	// analysed in their context, where it is stepped through, not on its own
+	for f := range roots {
+		if isPublicFn(f) || len(p.callerIndex()[f]) == 0 {
+			continue
+		}
+		others := func(g *ssa.Function) bool { return g != f && roots[g] }
+		if p.withinOnly(f, others) {
+			delete(roots, f)
+			guardedCovered[f] = true
 		}
 	}
 	return fields, roots
